@@ -92,6 +92,12 @@ Proof.
     match type of H with (if ?b then _ else _) = _ => destruct b end; [|discriminate]. injection H as <-. exact Ho.
   - destruct (g_run st r) as [[ws [|]]|]; try discriminate. destruct (g_runret st r); [discriminate|].
     injection H as <-. exact Ho.
+  - destruct (fresh_call st w); [|discriminate]. destruct (g_set st (caw_actor w)); [|discriminate].
+    destruct (is_done st tid).
+    + destruct targets; [|discriminate]. injection H as <-. exact Ho.
+    + destruct (set_eqb targets [tid]); [|discriminate]. injection H as <-.
+      change (outc (cancel_all st [tid]) x = Some o). rewrite cancel_all_outc. exact Ho.
+  - destruct (forallb (is_done st) l); [|discriminate]. injection H as <-. exact Ho.
 Qed.
 
 (* ------------------------------------------------------------------ errs_of *)
@@ -257,6 +263,32 @@ Proof.
   - exact H3.
 Qed.
 
+Lemma set_fin_ok st w F :
+  calls_ok st -> F_ok st F -> calls_ok (set_fin st (updn (g_fin st) w (Some F))).
+Proof.
+  intros (H1 & H2 & H3) HF.
+  assert (Hm : mono st (set_fin st (updn (g_fin st) w (Some F)))) by (apply mono_refl_tasks; reflexivity).
+  split; [|split]; cbn.
+  - intros w' W HW. eapply W_ok_mono; [exact Hm|apply (H1 w' W HW)].
+  - intros w' F'. unfold updn. destruct (Nat.eqb_spec w' w).
+    + intros E. injection E as <-. eapply F_ok_mono; [exact Hm|exact HF].
+    + intros E. eapply F_ok_mono; [exact Hm|apply (H2 w' F' E)].
+  - intros w' Hr. unfold updn. destruct (Nat.eqb_spec w' w); [discriminate|apply H3, Hr].
+Qed.
+
+Lemma set_wait_ok st w W :
+  calls_ok st -> W_ok st W -> calls_ok (set_wait st (updn (g_wait st) w (Some W))).
+Proof.
+  intros (H1 & H2 & H3) HW.
+  assert (Hm : mono st (set_wait st (updn (g_wait st) w (Some W)))) by (apply mono_refl_tasks; reflexivity).
+  split; [|split]; cbn.
+  - intros w' W'. unfold updn. destruct (Nat.eqb_spec w' w).
+    + intros E. injection E as <-. eapply W_ok_mono; [exact Hm|exact HW].
+    + intros E. eapply W_ok_mono; [exact Hm|apply (H1 w' W' E)].
+  - intros w' F' E. eapply F_ok_mono; [exact Hm|apply (H2 w' F' E)].
+  - exact H3.
+Qed.
+
 Ltac crush_step H :=
   repeat match type of H with
          | context [match ?x with _ => _ end] => destruct x; try discriminate
@@ -265,7 +297,7 @@ Ltac crush_step H :=
 Lemma step_calls_ok c st t e st' : gstep c st t e = Some st' -> calls_ok st -> calls_ok st'.
 Proof.
   intros H HI. pose proof (step_mono _ _ _ _ _ H) as Hm.
-  destruct e as [a tid created|a tid|tid le|tid o|a targets|tid|a w|a w targets|w|w r|r actors aws|r done|r]; unfold gstep in H.
+  destruct e as [a tid created|a tid|tid le|tid o|a targets|tid|a w|a w targets|w|w r|r actors aws|r done|r|tid w targets|a l]; unfold gstep in H.
   1,2,4,5,6,11,12,13: (eapply calls_ok_tasks_only; [exact Hm| | | |exact HI]; crush_step H; reflexivity).
   - (* GLoop *) eapply calls_ok_tasks_only; [exact Hm| | | |exact HI];
       destruct le; try discriminate; destruct (g_tasks st tid) as [[a s|]|]; try discriminate;
@@ -283,6 +315,15 @@ Proof.
     { intros w' W' HW. eapply W_ok_mono; [exact Hm|apply (H1 w' W' HW)]. }
     { intros w' F' HF. eapply F_ok_mono; [exact Hm|apply (H2 w' F' HF)]. }
     intros w' Hr. unfold updn in Hr. destruct (Nat.eqb_spec w' w) as [Heq|]; [rewrite Heq, EF; discriminate|apply H3, Hr].
+  - (* GCawCall *) destruct (fresh_call st w); [|discriminate]. destruct (g_set st (caw_actor w)); [|discriminate].
+    destruct (is_done st tid).
+    + destruct targets; [|discriminate]. injection H as <-. apply set_fin_ok; [exact HI|].
+      split; [|split; [|split]]; cbn; try (intros x []); [reflexivity|left; reflexivity].
+    + destruct (set_eqb targets [tid]); [|discriminate]. injection H as <-.
+      match goal with |- calls_ok (set_wait ?s1 (updn _ ?w1 (Some ?W1))) =>
+        change (calls_ok (set_wait s1 (updn (g_wait s1) w1 (Some W1)))) end.
+      apply set_wait_ok; [apply cancel_all_calls_ok, HI|]. split; cbn; [intros x []|left; split; reflexivity].
+  - (* GWithDone *) destruct (forallb (is_done st) l); [|discriminate]. injection H as <-. exact HI.
 Qed.
 
 Lemma calls_ok_init : calls_ok g_init.
@@ -445,6 +486,12 @@ Proof.
     match type of H with (if ?b then _ else _) = _ => destruct b end; [|discriminate]. injection H as <-. exact HI.
   - destruct (g_run st r) as [[ws [|]]|]; try discriminate. destruct (g_runret st r); [discriminate|].
     injection H as <-. exact HI.
+  - destruct (fresh_call st w); [|discriminate]. destruct (g_set st (caw_actor w)); [|discriminate].
+    destruct (is_done st tid).
+    + destruct targets; [|discriminate]. injection H as <-. eapply loops_ok_same; [| |exact HI]; reflexivity.
+    + destruct (set_eqb targets [tid]); [|discriminate]. injection H as <-.
+      eapply loops_ok_same; [| |apply (cancel_all_loops_ok st [tid]), HI]; reflexivity.
+  - destruct (forallb (is_done st) l); [|discriminate]. injection H as <-. exact HI.
 Qed.
 
 Lemma loops_ok_init : loops_ok g_init.
@@ -477,7 +524,7 @@ Proof.
                   (forall w, g_ret st w = true -> g_ret st' w = true) -> run_ok st').
   { intros Hr Hrr Hret. unfold run_ok. rewrite Hr, Hrr. split; [|exact H2].
     intros r ws pend Hrun w Hw. destruct (H1 r ws pend Hrun w Hw) as [Hp|Hp]; [left; exact Hp|right; apply Hret, Hp]. }
-  destruct e as [a tid created|a tid|tid le|tid o|a targets|tid|a w|a w targets|w|w r|r actors aws|r done|r]; unfold gstep in H.
+  destruct e as [a tid created|a tid|tid le|tid o|a targets|tid|a w|a w targets|w|w r|r actors aws|r done|r|tid w targets|a l]; unfold gstep in H.
   1,2,4,5,6: (apply Hsame; crush_step H; try reflexivity; trivial).
   - (* GLoop *) apply Hsame;
       destruct le; try discriminate; destruct (g_tasks st tid) as [[a s|]|]; try discriminate;
@@ -518,6 +565,8 @@ Proof.
   - (* GRunRet *) destruct (g_run st r) as [[ws [|]]|] eqn:Er; try discriminate.
     destruct (g_runret st r); [discriminate|]. injection H as <-. split; cbn; [exact H1|].
     intros r' Hrr. unfold updn in Hrr. destruct (Nat.eqb r' r) eqn:E; [apply Nat.eqb_eq in E; subst r'; exists ws; exact Er|apply H2, Hrr].
+  - (* GCawCall *) apply Hsame; crush_step H; try reflexivity; trivial.
+  - (* GWithDone *) apply Hsame; crush_step H; try reflexivity; trivial.
 Qed.
 
 Lemma run_ok_init : run_ok g_init.
@@ -582,4 +631,34 @@ Proof.
   unfold gstep. destruct (g_run st r); [discriminate|].
   destruct (list_eqb Nat.eqb (map fst aws) actors) eqn:E; [|discriminate]. intros H. injection H as <-.
   split; [apply list_eqb_nat_eq, E|]. cbn. apply updn_same.
+Qed.
+
+(* ------------------------------------------------------------------ cancel_and_await(task) *)
+(* the call: a done task -> returns at once, nothing raised; otherwise the cancellation of the task
+   is requested (again, if it is already being cancelled) and the call blocks on exactly that task *)
+Lemma caw_call c st t tid w tg st' :
+  gstep c st t (GCawCall tid w tg) = Some st' ->
+  (is_done st tid = true /\ g_fin st' w = Some (mkF KStop (caw_actor w) [] [] WOk) /\ g_wait st' w = g_wait st w) \/
+  (is_done st tid = false /\ g_creq st' tid = S (g_creq st tid) /\
+   g_wait st' w = Some (mkW KStop (caw_actor w) [tid] [] [tid]) /\ g_set st' (caw_actor w) = []).
+Proof.
+  unfold gstep. destruct (fresh_call st w); [|discriminate].
+  destruct (g_set st (caw_actor w)) eqn:Es; [|discriminate]. destruct (is_done st tid) eqn:Ed.
+  - destruct tg; [|discriminate]. intros H. injection H as <-. left. cbn. rewrite updn_same. auto.
+  - destruct (set_eqb tg [tid]); [|discriminate]. intros H. injection H as <-. right. cbn.
+    rewrite updn_same, Nat.eqb_refl, Ed. cbn. auto.
+Qed.
+
+(* its resumption: only when the task is done; it returns normally unless the task ended with a
+   non-cancellation error, which is raised *)
+Lemma caw_wake st w a tid st' :
+  g_wait st w = Some (mkW KStop a [tid] [] [tid]) -> g_set st a = [] -> wake st w = Some st' ->
+  is_done st tid = true /\
+  g_fin st' w = Some (mkF KStop a [tid] [tid] (result_of KStop (errs_of st [tid]))) /\ g_wait st' w = None.
+Proof.
+  unfold wake. intros HW Hs. rewrite HW. cbn [w_snap w_actor w_prev w_kind w_s0].
+  destruct (forallb (is_done st) [tid]) eqn:Ed; [|discriminate].
+  rewrite Hs. cbn [removen filter app].
+  assert (Hd : is_done st tid = true) by (cbn in Ed; rewrite andb_true_r in Ed; exact Ed).
+  destruct (errs_of st [tid]) eqn:Ee; intros H; injection H as <-; cbn; rewrite !updn_same; auto.
 Qed.
